@@ -65,6 +65,17 @@ inductive Env where
   | onstack (offset : Nat) (length : Nat) (fiber : Val)
   deriving DecidableEq, Repr
 
+/-- one `JanetStackFrame` of a marshalled fiber with the slots above it (top frame first, as they are written).  `flags` is
+`frame->flags` without JANET_STACKFRAME_HASENV (the sign bit), which is on the wire iff `env` is present. -/
+structure Frame where
+  flags : Int
+  prevframe : Nat
+  pcdiff : Nat
+  func : Val
+  env : Option Nat
+  slots : List Val
+  deriving DecidableEq, Repr
+
 /-- one call of an abstract type's marshal hook on its `JanetMarshalContext` (see Abstract.lean) -/
 inductive AItem where
   | int (i : Int)               -- janet_marshal_int
@@ -81,6 +92,9 @@ inductive CObj where
   | data (o : Obj)
   | func (defIdx : Nat) (envs : List Nat)
   | abs (name : Val) (pre post : List AItem)
+  /-- `JanetFiber`; `flags` is `fiber->flags` (JANET_FIBER_FLAG_HASCHILD / HASENV are wire-only bits) -/
+  | fiber (flags : Int) (frame stackstart stacktop maxstack : Nat) (frames : List Frame)
+      (env : Option Val) (child : Option Val) (last : Val)
   deriving DecidableEq, Repr
 
 structure Heap where
@@ -181,6 +195,30 @@ def intsBytes : List Int → List Nat
   | [] => []
   | i :: is => pushint i ++ intsBytes is
 
+/-- `fflags = fiber->flags | HASCHILD (if child) | HASENV (if env)` (the two bits are clear in `fiber->flags`) -/
+def fiberWireFlags (flags : Int) (env child : Option Val) : Int :=
+  flags + (if env.isSome then fiberHasEnv else 0) + (if child.isSome then fiberHasChild else 0)
+
+/-- `frame->flags | JANET_STACKFRAME_HASENV` (= INT32_MIN, the sign bit) when the frame has an environment -/
+def frameWireFlags (fr : Frame) : Int := if fr.env.isSome then fr.flags - 2147483648 else fr.flags
+
+/-- one frame of `marshal_one_fiber`: flags, prevframe, pc offset, function, environment, the stack slots of the frame;
+`g` = `marshal_one(…, flags + 1)`, `ge` = `marshal_one_env(…, flags + 1)` -/
+def marshalFrame (g : Val → W) (ge : Nat → W) (fr : Frame) : W :=
+  W.seq (W.ret (pushint (frameWireFlags fr) ++ (pushint fr.prevframe ++ pushint fr.pcdiff)))
+  (W.seq (g fr.func)
+  (W.seq (match fr.env with | some ei => ge ei | none => W.ret [])
+         (W.list g fr.slots)))
+
+/-- body of `marshal_one_fiber` after its MARSH_STACKCHECK -/
+def marshalFiberBody (g : Val → W) (ge : Nat → W) (flags : Int) (frame stackstart stacktop maxstack : Nat) (frames : List Frame)
+    (env child : Option Val) (last : Val) : W :=
+  W.seq (W.ret (pushint (fiberWireFlags flags env child) ++ (pushint frame ++ (pushint stackstart ++ (pushint stacktop ++ pushint maxstack)))))
+  (W.seq (W.list (marshalFrame g ge) frames)
+  (W.seq (match env with | some v => g v | none => W.ret [])
+  (W.seq (match child with | some v => g v | none => W.ret [])
+         (g last))))
+
 /-- body of `marshal_one_def` after the funcdef has been pushed on `seen_defs`; `g` = `marshal_one(…, flags + 1)`,
 `gd` = `marshal_one_def(…, flags + 1)` -/
 def marshalDefBody (g : Val → W) (gd : Nat → W) (df : Def) : W :=
@@ -231,7 +269,13 @@ def marshalC : Nat → Heap → Val → W
             -- pushbyte(LB_FUNCTION); pushint(environments_length); MARK_SEEN(); marshal_one_def(flags + 1); envs (flags + 1)
             W.lead lb_function (W.seq (W.int envs.length) (W.seq (W.markObj id)
               (W.seq (fun c => marshalDef fuel T di c) (W.list (fun ei c => marshalEnv fuel T ei c) envs))))
-          | .abs _ _ _ => W.fail) c
+          | .abs _ _ _ => W.fail
+          | .fiber flags frame stackstart stacktop maxstack frames env child last =>
+            -- MARK_SEEN(); pushbyte(LB_FIBER); marshal_one_fiber(flags + 1) [MARSH_STACKCHECK], everything inside at flags + 2
+            W.seq (W.markObj id) (W.lead lb_fiber (match fuel with
+              | 0 => W.fail
+              | f + 1 => marshalFiberBody (fun v c => marshalC f T v c) (fun ei c => marshalEnv f T ei c)
+                           flags frame stackstart stacktop maxstack frames env child last))) c
 
 /-- `marshal_one_def` -/
 def marshalDef : Nat → Heap → Nat → W
@@ -374,6 +418,39 @@ def unmarshalEnvWith (g : R Val) : R Nat := fun c data =>
         if offset > 0 then R.map g fun fiber => Env.onstack offset length fiber
         else R.bind (R.guard (length ≠ 0)) fun _ => R.map (R.listN g length) fun vs => Env.detached vs) c data
 
+/-- the frame loop of `unmarshal_one_fiber`: `while (stack > 0)`; `lf` bounds the number of iterations (every iteration
+checks `prevframe + JANET_FRAME_SIZE <= stack`, so `stack` strictly decreases).  The tests that need the function's funcdef
+(frame size = slot count, pc inside the bytecode, suspended at a call) are validation of untrusted input and not modelled. -/
+def readFrames (g : R Val) (ge : R Nat) : Nat → Nat → Nat → R (List Frame)
+  | 0, _, _ => R.fail
+  | lf + 1, stack, stacktop =>
+    if stack = 0 then R.pure []
+    else
+      R.bind R.int fun ff =>
+      R.bind R.nat fun prevframe =>
+      R.bind R.nat fun pcdiff =>
+      R.bind g fun func =>
+      R.bind (if ff < 0 then R.map ge some else R.pure none) fun env =>
+      R.bind (R.guard (decide (prevframe + frameSize ≤ stack))) fun _ =>
+      R.bind (R.listN g (stacktop - stack)) fun slots =>
+      R.map (readFrames g ge lf prevframe (stack - frameSize)) fun rest =>
+        (⟨if ff < 0 then ff + 2147483648 else ff, prevframe, pcdiff, func, env, slots⟩ : Frame) :: rest
+
+/-- body of `unmarshal_one_fiber` after the new fiber has been pushed on `st->lookup` -/
+def unmarshalFiberBody (g : R Val) (ge : R Nat) : R CObj :=
+  R.bind R.int fun ff =>
+  R.bind R.nat fun frame =>
+  R.bind R.nat fun stackstart =>
+  R.bind R.nat fun stacktop =>
+  R.bind R.nat fun maxstack =>
+  R.bind (R.guard (decide (frame + frameSize ≤ stackstart ∧ stackstart ≤ stacktop ∧ stacktop ≤ maxstack))) fun _ =>
+  R.bind (readFrames g ge (frame + 1) frame (stackstart - frameSize)) fun frames =>
+  R.bind (if hasFlag ff fiberHasEnv then R.map g some else R.pure none) fun env =>
+  R.bind (if hasFlag ff fiberHasChild then R.map g some else R.pure none) fun child =>
+  R.map g fun last =>
+    CObj.fiber (ff - (if hasFlag ff fiberHasEnv then fiberHasEnv else 0) - (if hasFlag ff fiberHasChild then fiberHasChild else 0))
+      frame stackstart stacktop maxstack frames env child last
+
 /-- body of `unmarshal_one_def` after the new funcdef has been pushed on `lookup_defs`; `g` = `unmarshal_one(…, flags + 1)`,
 `gd` = `unmarshal_one_def(…, flags + 1)` -/
 def unmarshalDefBody (g : R Val) (gd : R Nat) (vf : Def → Bool) : R Def :=
@@ -449,6 +526,11 @@ def unmarshalC : Nat → (Def → Bool) → R Val
           R.preObj (R.bind (fun c d => unmarshalDef fuel vf c d) fun di =>
                     R.map (R.listN (unmarshalEnvWith (fun c d => unmarshalC fuel vf c d)) len) fun envs => (di, envs))
             (fun p => .func p.1 p.2)) c rest
+      else if lead = lb_fiber then
+        -- unmarshal_one_fiber(flags + 1): janet_v_push(st->lookup, fiber) first, everything inside at flags + 2
+        (match fuel with
+         | 0 => R.fail
+         | f + 1 => R.preObj (unmarshalFiberBody (fun c d => unmarshalC f vf c d) (unmarshalEnvWith (fun c d => unmarshalC f vf c d))) id) c rest
       else
         match tableOfLead lead with
         | none => none
